@@ -26,6 +26,7 @@ OpRENAMEAT == 35      OpUNLINKAT == 36     OpMKDIRAT == 37      OpSOCKET == 45
 OpURING_CMD == 46     OpSEND_ZC == 47      OpWAITID == 50       OpFTRUNCATE == 55
 OpBIND == 56          OpLISTEN == 57
 OpFILES_UPDATE == 20  OpREAD_MULTISHOT == 49  OpFIXED_FD_INSTALL == 54  OpPIPE == 62
+OpPOLL_ADD == 6
 RecvMultishot == 2            \* IORING_RECV_MULTISHOT (ioprio)
 
 FsyncDatasync == 1            \* IORING_FSYNC_DATASYNC
@@ -246,7 +247,13 @@ PipeCases == { Case("pipe", k, NoArgs,
 ConvertCases == { Case("to_direct", "file", NoArgs, [Blank EXCEPT !.opcode = OpFILES_UPDATE, !.fd = "NONE", !.off = "ALLOC", !.addr = "FDPTR", !.len = 1]),
                   Case("to_file", "direct", NoArgs, OnFd("direct", [Blank EXCEPT !.opcode = OpFIXED_FD_INSTALL])) }
 
-AllCases == ReadCases \cup WriteCases \cup ReadvCases \cup WritevCases \cup FsyncCases \cup StatxCases \cup FadviseCases
+\* Ring::pollable: poll(2) for readability on the *other* ring's descriptor, edge triggered,
+\* exclusive, multishot: POLL_ADD fd = that ring, poll32_events = EPOLLIN | EPOLLERR | EPOLLHUP
+\* | EPOLLEXCLUSIVE (bit 28) | EPOLLET (bit 31), len = IORING_POLL_ADD_MULTI.
+PollableCases == { Case("pollable", "file", NoArgs,
+                        [Blank EXCEPT !.opcode = OpPOLL_ADD, !.fd = "RING2", !.opf = 1 + 8 + 16 + 268435456, !.opf31 = TRUE, !.len = 1]) }
+
+AllCases == PollableCases \cup ReadCases \cup WriteCases \cup ReadvCases \cup WritevCases \cup FsyncCases \cup StatxCases \cup FadviseCases
             \cup FallocateCases \cup FtruncateCases \cup CloseCases \cup OpenCases \cup TmpfileCases \cup PathCases
             \cup SocketCases \cup ConnectCases \cup ListenCases \cup AcceptCases \cup SendCases \cup SendToCases \cup RecvCases
             \cup MsgCases \cup ShutdownCases \cup SockoptCases \cup SpliceCases \cup MadviseCases \cup WaitidCases
